@@ -87,3 +87,10 @@ package platform
 //@ func setDriver [C19 C17]
 //@   at call NewDriver#1 assert #user-options-after-platform-options arg1 === platformOptsG ++ opts
 //@   at call NewDriver#2 assert #user-options-after-platform-options arg1 === platformOptsG ++ opts
+
+// ---- C11: a platform on-open/on-close write marked `redacted: true` is written redacted --------------------------------
+//@ func channelWrite [C11]
+//@   requires c != nil
+//@   at call Write#1 assert #redacted-flag-is-passed-through has(op, "redacted") && typeis(get(op, "redacted"), "bool") && as(get(op, "redacted"), "bool") ==> arg1
+//@   at call Write#1 assert #input-is-the-definitions-input has(op, "input") && typeis(get(op, "input"), "string") && arg0 == as(get(op, "input"), "string")
+//@   ensures #input-must-be-a-string !(has(op, "input") && typeis(get(op, "input"), "string")) ==> isErr(result, util.ErrBadOption)
